@@ -307,6 +307,11 @@ def dem_ensures(c):
     return [
         ("was-in-eom-mode", in_eom(h0, cs)),
         ("block-closed-at-the-channel-end", z3.And(SC.eb_len(h1, cs) == e0, z3.Not(SC.eb_tf_none(h1, blk)), SC.eb_tf(h1, blk) == t_close, z3.Not(in_eom(h1, cs)))),
+        # proof steps (checked, then available to the drift clause): the block is closed at the old channel end; appending the end buffer does not
+        # change which slot is the last real pulse
+        ("assert:block-closed-at-the-old-channel-end", z3.And(z3.Not(SC.eb_tf_none(h1, blk)), SC.eb_tf(h1, blk) == t_close)),
+        ("assert:same-last-real-pulse", z3.Implies(z3.And(T(c.correct_phase_drift), HAS_REAL_PULSE(arr0, n0)), z3.And(
+            SC.LPSI(SC.cs_arr(h1, cs), n1, z3.BoolVal(True)) == L, z3.Select(SC.cs_arr(h1, cs), L) == z3.Select(arr0, L), 0 <= L, L < n0))),
         ("drift-window-ends-with-the-block", z3.Implies(T(c.correct_phase_drift), z3.ForAll([q], z3.Implies(z3.Select(tg, q),
             last_phase(h1, tr0(q)) == fmt(last_phase(h0, tr0(q)) + (-drift))), patterns=[qref(h0, seq, basis, q)]))),
         ("no-correction-unless-asked", z3.Implies(z3.Not(T(c.correct_phase_drift)), z3.ForAll([q], z3.Implies(z3.Select(tg, q),
@@ -325,7 +330,9 @@ contract(SQ, "Sequence.disable_eom_mode", props=("C15", "C13"), lemmas=lambda c:
          modifies={SC.SLOTS: lambda c: [CS(c)], "_EOMSettings.tf": None, "$alloc": None,
                    BR_TIMES: mes_touched_trackers, BR_PHASES: mes_touched_trackers, "Sequence._calls": lambda c: [T(c.self)], "Sequence._to_build_calls": lambda c: [T(c.self)]},
          exc_safe=False,
-         slices={"drift-window-ends-with-the-block": ("targets-shifted-additively", "built-case", "schedule-is-always", "frame", "blocks-kept", "lemma", "L-lpsi-agree", "L-lpsi-extend", "appended-slots-are-no-real-pulses",
+         slices={"same-last-real-pulse": ("L-lpsi-extend", "L-lpsi-agree", "lemma", "appended-slots-are-no-real-pulses", "is-most-recent-matching-slot", "index-in-range", "matches", "none-later",
+                                          "INV.len>=0"),
+                 "drift-window-ends-with-the-block": ("assert:", "targets-shifted-additively", "built-case", "schedule-is-always", "frame", "blocks-kept", "lemma", "L-lpsi-agree", "L-lpsi-extend", "appended-slots-are-no-real-pulses",
                                                       "INV.monotone", "INV.contiguous", "INV.boundaries-nonneg", "INV.first-is-initial-target", "INV.len>=0", "eom.well-ordered", "eom-blocks-wf")},
          )
 
